@@ -123,8 +123,8 @@ def as_dtype(ex, v, node=None):
     if isinstance(v, V.BuiltinRef):
         return {"bool": dt_bool, "int": dt_int, "float": dt_float, "complex": dt_complex}[v.name]
     if isinstance(v, str):
-        return {"int64": dt_int, "i8": dt_int, "float64": dt_float, "bool": dt_bool, "uint32": dt_uint32}.get(v) \
-            or z3.Const(f"dt_{v}", DT)
+        known = {"int64": dt_int, "i8": dt_int, "float64": dt_float, "bool": dt_bool, "uint32": dt_uint32}
+        return known[v] if v in known else z3.Const(f"dt_{v}", DT)
     if isinstance(v, V.TypeRef) and v.name == "numpy.uint32":
         return dt_uint32
     if isinstance(v, z3.ExprRef) and v.sort() == DT:
@@ -142,6 +142,8 @@ class Arr:
         self.region = region or Region("fresh")
         self._init = init                      # None: every position defined
         self.writer = None                     # for views: function(ex, new_elem_closure, mask, node)
+        if self.region.owner == "fresh":
+            self._flags = FlagsV(None, z3.BoolVal(True), z3.BoolVal(True))
 
     def elem(self, i):
         return self._elem(i)
@@ -164,6 +166,10 @@ class Arr:
             return size(self.shape)
         if attr == "T":
             raise U("transpose of a numeric array", node)
+        if attr == "flags":
+            if not hasattr(self, "_flags"):
+                self._flags = FlagsV(ex.ctx)
+            return self._flags
         return V.BoundMethod(self, attr)
 
     def sx_method(self, ex, attr, args, kw, node):
@@ -258,6 +264,19 @@ class Arr:
 
     def sx_truth(self, ex):
         raise U("truth value of an array")
+
+
+class FlagsV:
+    """ndarray.flags of an array whose memory layout is unknown"""
+
+    def __init__(self, ctx, cc=None, wr=None):
+        self.c_contiguous = ctx.bool("c_contiguous") if cc is None else cc
+        self.writeable = ctx.bool("writeable") if wr is None else wr
+
+    def sx_getattr(self, ex, attr, node):
+        if attr in ("c_contiguous", "writeable"):
+            return getattr(self, attr)
+        raise U(f"flags.{attr}", node)
 
 
 class MaskedSel:
@@ -363,11 +382,21 @@ class ExpMat:
         if isinstance(idx, (int, z3.ArithRef)):
             ex.oblige(f"pre({ex.site('index')}).in_bounds", z3.And(0 <= idx, idx < self.n), "index", node)
             return MonoRow(self.row(idx), self.D)
+        if isinstance(idx, tuple) and len(idx) == 2 and idx[0] == slice(None, None, None) and isinstance(idx[1], ColVec):
+            cv = idx[1]
+            sel = getattr(cv, "colsel", None)
+            if sel is None:
+                sel = ColSel(ex.ctx, cv.D, cv.at)
+                cv.colsel = sel
+            ex.oblige(f"pre({ex.site('column_mask')}).width", cv.D == self.D, "precondition", node)
+            return project_columns(ex, self, sel)
         raise U("exponent matrix indexing", node)
 
     def sx_compare(self, ex, op, other, node, reflected):
         if op == "Eq" and isinstance(other, int) and other == 0:
             return RowsAllZero(self)
+        if op == "NotEq" and isinstance(other, int) and other == 0:
+            return RowsNonZero(self)
         return NotImplemented
 
     def sx_method(self, ex, attr, args, kw, node):
@@ -423,7 +452,14 @@ def mono_axioms(ctx):
     m = z3.Const(ctx.fresh("m"), Mono)
     from .sortmodel import meq
     m2 = z3.Const(ctx.fresh("m"), Mono)
+    dc = z3.Function("diffcol", Mono, Mono, I, I)
     return [z3.ForAll([m, m2, D], z3.Implies(z3.And(mzero(m, D), mzero(m2, D)), meq(m, m2, D))),
+            # meq is entry-wise equality of the first D entries (skolemised in the negative direction)
+            z3.ForAll([m, m2, D, d], z3.Implies(z3.And(meq(m, m2, D), 0 <= d, d < D), expo(m, d) == expo(m2, d)),
+                      patterns=[z3.MultiPattern(meq(m, m2, D), expo(m, d))]),
+            z3.ForAll([m, m2, D], z3.Implies(z3.Not(meq(m, m2, D)), z3.And(
+                0 <= dc(m, m2, D), dc(m, m2, D) < D, expo(m, dc(m, m2, D)) != expo(m2, dc(m, m2, D)))),
+                patterns=[meq(m, m2, D)]),
             z3.ForAll([d], expo(mono_zero, d) == 0),
             z3.ForAll([D], mzero(mono_zero, D)),
             # a row is all-zero iff each of its D entries is zero
@@ -544,7 +580,7 @@ class Poly:
     def wf(self, ctx):
         """Well-formedness (C03): at least one term and one indeterminate, rows pairwise distinct, names match."""
         from .sortmodel import meq
-        return z3.And(self.N >= 1, self.D >= 1, nlen(self.names) == self.D,
+        return z3.And(self.N >= 1, self.D >= 1, nlen(self.names) == self.D, names_distinct(ctx, self.names),
                       ctx.forall_range2(0, self.N, lambda t, s: z3.And(self.row(t) != self.row(s),
                                                                        z3.Not(meq(self.row(t), self.row(s), self.D)))))
 
@@ -570,9 +606,15 @@ class Poly:
     def sx_getattr(self, ex, attr, node):
         if attr == "coefficients":
             C = self.frozenC()                        # fresh copies of the current contents
-            return V.Seq(self.N, lambda t: Arr(self.shape, lambda i: C(t, i), "real", self.dtype, Region("fresh")), "list")
+            init = self._init
+            sq = V.Seq(self.N, lambda t: Arr(self.shape, lambda i: C(t, i), "real", self.dtype, Region("fresh"),
+                                             None if init is None else (lambda i, t=t: init(t, i))), "list")
+            sq.source = (self, C)
+            return sq
         if attr == "exponents":
-            return ExpMat(self.N, self.D, self._row, Region("fresh"))
+            em = ExpMat(self.N, self.D, self._row, Region("fresh"))
+            em.source = self
+            return em
         if attr == "keys":
             return KeySeq(self)
         if attr == "values":
@@ -605,6 +647,8 @@ class Poly:
             return p
         model = ex.reg.fn.get(f"numpoly.ndpoly.{attr}")
         if model is not None:
+            if attr in getattr(ex.reg, "static_methods", ()):
+                return model(ex, list(args), kw, node)
             return model(ex, [self] + list(args), kw, node)
         raise U(f"ndpoly.{attr}", node)
 
@@ -612,6 +656,20 @@ class Poly:
 class NamesV:
     def __init__(self, term):
         self.term = term
+
+    def sx_tuple(self, ex, node):
+        return self
+
+    def sx_isinstance(self, ex, name):
+        return name == "tuple"
+
+    def sx_set(self, ex, node):
+        return _SortedNames(self.term, "set")
+
+    def sx_sorted(self, ex, kw, node):
+        if kw:
+            raise U("sorted(names, key=...)", node)
+        return _SortedNames(self.term, "tuple")
 
     def sx_len(self, ex):
         return nlen(self.term)
@@ -630,6 +688,27 @@ class NamesV:
 
     def sx_truth(self, ex):
         return nlen(self.term) > 0
+
+
+def names_distinct(ctx, nm):
+    return ctx.forall_range2(0, nlen(nm), lambda d, e: nat(nm, d) != nat(nm, e))
+
+
+class _SortedNames:
+    """sorted(set(names)) / sorted(names): they differ iff the tuple has a duplicate."""
+
+    def __init__(self, term, kind):
+        self.term, self.kind = term, kind
+
+    def sx_sorted(self, ex, kw, node):
+        return self
+
+    def sx_compare(self, ex, op, other, node, reflected):
+        if isinstance(other, _SortedNames) and other.term is self.term and {self.kind, other.kind} == {"set", "tuple"} \
+                and op in ("Eq", "NotEq"):
+            d = names_distinct(ex.ctx, self.term)
+            return d if op == "Eq" else z3.Not(d)
+        return NotImplemented
 
 
 class KeyTok:
@@ -686,6 +765,14 @@ class ValuesView:
         col = self.poly.column(ex, t)
         src = elemfn(ex, value, self.poly.shape, node)
         col.write(ex, src, node)
+
+    def sx_getattr(self, ex, attr, node):
+        return V.BoundMethod(self, attr)
+
+    def sx_method(self, ex, attr, args, kw, node):
+        if attr == "ravel" and not args:
+            return self                     # 1-d alias of the same buffer: same fields, same memory
+        raise U(f"values.{attr}", node)
 
 
 def install(reg):
@@ -800,3 +887,174 @@ class ArgWhere:
             ctx.assume(z3.And(0 <= idx, idx < v.n, v.at(idx)))
             return idx
         raise U(f"argwhere.{attr}", node)
+
+
+# ====================================================================== pieces used by construct/clean.py
+class RowsNonZero:
+    """`exponents != 0` (boolean matrix); only `numpy.any(_, 0)` (per column) is modelled."""
+
+    def __init__(self, mat):
+        self.mat = mat
+
+
+class ColVec:
+    """Boolean vector over the D columns of an exponent matrix (mutable: indices[0] = True)."""
+
+    def __init__(self, D, at):
+        self.D, self._at = D, at
+        self.region = Region("fresh")
+
+    def at(self, d):
+        return self._at(d)
+
+    def sx_setitem(self, ex, idx, value, node):
+        if isinstance(idx, int) and value is True:
+            old = self._at
+            self._at = lambda d: z3.If(d == idx, z3.BoolVal(True), old(d))
+            return
+        raise U("column mask assignment", node)
+
+
+class ColSel:
+    """Strictly increasing selection of columns: col(j) for j < Dn, exactly the columns with used(d)."""
+
+    def __init__(self, ctx, D, used):
+        self.D, self.used = D, used
+        self.Dn = ctx.int("Dn")
+        self.col = ctx.func("col", I, I)
+        self.pos = ctx.func("colpos", I, I)
+        ctx.assume(z3.And(self.Dn >= 0, self.Dn <= D))
+        ctx.assume(ctx.forall_range(0, self.Dn, lambda j: z3.And(0 <= self.col(j), self.col(j) < D, used(self.col(j)),
+                                                                 self.pos(self.col(j)) == j), pat=lambda j: self.col(j)))
+        ctx.assume(ctx.forall_range2(0, self.Dn, lambda j, l: self.col(j) < self.col(l)))
+        ctx.assume(ctx.forall_range(0, D, lambda d: z3.Implies(used(d), z3.And(0 <= self.pos(d), self.pos(d) < self.Dn,
+                                                                                self.col(self.pos(d)) == d)),
+                                    pat=lambda d: self.pos(d)))
+
+
+def project_columns(ex, mat, sel):
+    """exponents[:, mask]: rows restricted to the selected columns."""
+    ctx = ex.ctx
+    rp = ctx.func("rowproj", I, Mono)
+    ctx.assume(ctx.forall_range(0, mat.n, lambda t: ctx.forall_range(
+        0, sel.Dn, lambda j: expo(rp(t), j) == expo(mat.row(t), sel.col(j))), pat=lambda t: rp(t)))
+    out = ExpMat(mat.n, sel.Dn, lambda t: rp(t), Region("fresh"), mat.dtype)
+    out.projected_from = (mat, sel)
+    return out
+
+
+class NameArr:
+    """numpy.array(names)"""
+
+    def __init__(self, names):
+        self.names = names
+
+    def sx_getitem(self, ex, idx, node):
+        if isinstance(idx, ColVec):
+            sel = getattr(idx, "colsel", None)
+            if sel is None:
+                sel = ColSel(ex.ctx, idx.D, idx.at)
+                idx.colsel = sel
+            ctx = ex.ctx
+            nm = ctx.const("names_sel", Names)
+            ctx.assume(nlen(nm) == sel.Dn)
+            ctx.assume(ctx.forall_range(0, sel.Dn, lambda j: nat(nm, j) == nat(self.names, sel.col(j))))
+            out = NameArr(nm)
+            out.selected = (self.names, sel)
+            return out
+        raise U("name array indexing", node)
+
+    def sx_getattr(self, ex, attr, node):
+        return V.BoundMethod(self, attr)
+
+    def sx_method(self, ex, attr, args, kw, node):
+        if attr == "tolist":
+            return NamesV(self.names)
+        raise U(f"name array .{attr}", node)
+
+
+class UniqueCounts:
+    """second result of numpy.unique(rows, return_counts=True, axis=0); only `any(count > 1)` is modelled"""
+
+    def __init__(self, mat):
+        self.mat = mat
+
+    def sx_compare(self, ex, op, other, node, reflected):
+        if op == "Gt" and other == 1 and not reflected:
+            return HasDuplicateMarker(self.mat)
+        return NotImplemented
+
+
+class HasDuplicateMarker:
+    def __init__(self, mat):
+        self.mat = mat
+
+
+def has_duplicate_rows(ctx, mat):
+    from .sortmodel import meq
+    return z3.Not(ctx.forall_range2(0, mat.n, lambda t, s: z3.Not(meq(mat.row(t), mat.row(s), mat.D))))
+
+
+def install_clean(reg):
+    ax = reg.axiom
+    prev_any = reg.fn["numpy.any"]
+    prev_asarray = reg.fn["numpy.asarray"]
+    prev_zeros = reg.fn["numpy.zeros"]
+    prev_array = reg.fn["numpy.array"]
+
+    @ax("numpy.any")
+    def any_(ex, args, kw, node):
+        a = args[0]
+        if isinstance(a, RowsNonZero) and args[1:] == [0]:
+            m = a.mat
+            ctx = ex.ctx
+            used = ctx.func("colused", I, B)
+            ctx.assume(ctx.forall_range(0, m.D, lambda d: used(d) == z3.Not(
+                ctx.forall_range(0, m.n, lambda t: expo(m.row(t), d) == 0)), pat=lambda d: used(d)))
+            cv = ColVec(m.D, lambda d: used(d))
+            cv.of = m
+            return cv
+        if isinstance(a, ColVec) and len(args) == 1:
+            return z3.Not(ex.ctx.forall_range(0, a.D, lambda d: z3.Not(a.at(d))))
+        if isinstance(a, HasDuplicateMarker):
+            return has_duplicate_rows(ex.ctx, a.mat)
+        return prev_any(ex, args, kw, node)
+
+    @ax("numpy.asarray")
+    def asarray(ex, args, kw, node):
+        a = args[0]
+        if isinstance(a, ExpMat):
+            return a
+        if isinstance(a, V.Seq) and a.kind == "tuple" and kw.get("dtype") is not None:
+            probe = a.item(z3.Int(ex.ctx.fresh("probe")))
+            if isinstance(probe, MonoRow):
+                return ExpMat(a.n, probe.D, lambda t: a.item(t).m, Region("fresh"), dt_int)
+        return prev_asarray(ex, args, kw, node)
+
+    @ax("numpy.zeros")
+    def zeros(ex, args, kw, node):
+        shp = args[0]
+        if isinstance(shp, tuple) and len(shp) == 2 and shp[0] == 1:
+            return ExpMat(1, shp[1], lambda t: mono_zero, Region("fresh"), as_dtype(ex, kw.get("dtype", "float64"), node))
+        return prev_zeros(ex, args, kw, node)
+
+    @ax("numpy.zeros_like")
+    def zeros_like(ex, args, kw, node):
+        a = args[0]
+        if isinstance(a, Arr) and len(args) == 1 and not kw:
+            return Arr(a.shape, lambda i: z3.RealVal(0), a.kind, a.dtype, Region("fresh"))
+        raise U("numpy.zeros_like of this value", node)
+
+    @ax("numpy.array")
+    def array(ex, args, kw, node):
+        a = args[0]
+        if isinstance(a, NamesV) and len(args) == 1 and not kw:
+            return NameArr(a.term)
+        return prev_array(ex, args, kw, node)
+
+    @ax("numpy.unique")
+    def unique(ex, args, kw, node):
+        a = args[0]
+        if isinstance(a, ExpMat) and kw.get("return_counts") is True and kw.get("axis") == 0:
+            return (object(), UniqueCounts(a))
+        raise U("numpy.unique in this form", node)
